@@ -1689,7 +1689,7 @@ def c20(tier):
     rep.add_mc(r, "MC_Clones.cfg")
     if r["error"]:
         rep.spec_violation(r, "MC_Clones.cfg")
-    for bug in ("shared_reader", "two_step_cache"):
+    for bug in ("shared_reader", "two_step_cache", "tracked_pos"):
         r = vlib.tlc_mc("Clones.tla", "MC_Clones_%s.cfg" % bug, wd, timeout=300, tag="mc-" + bug)
         found = bool(r["error"]) and "PerHandleView" in r["error"]
         rep.neg_controls.append({"spec_mutant": bug, "expected_violation": "PerHandleView", "found": found})
@@ -1775,6 +1775,22 @@ def c20(tier):
                 {"h": 1, "op": "open", "i": 0}, rd(0, 1), {"h": 0, "op": "stat"}])
     for k, steps in enumerate(fam):
         scs.append({"sc": "failopen-%d" % k, "hex": eb.hex(), "handles": 3, "steps": steps})
+    # clones taken MID-LIFE (Clones!CloneFrom), from readers whose Clone keeps the position (like a Cursor), restarts at 0 (like a
+    # reader that reopens its file) or sits at the end: after handle g read entry i (none of it, part, all of it - then g's reader
+    # stands exactly on the next local header), handle h becomes a clone of g and opens entry j first
+    nc = 0
+    for cp in (0, 1, 2):
+        for i in range(len(datas)):
+            for j in range(len(datas)):
+                for part in (0, 1, len(datas[i])):
+                    sl = datas[i][:part]
+                    steps = [{"h": 0, "op": "open", "i": i}] + ([{"h": 0, "op": "read", "k": part if part < len(datas[i]) else 100000, "plen": len(sl), "pcrc": crc_hex(sl)}] if part else []) + \
+                            [{"h": 1, "op": "clone_from", "g": 0}, {"h": 1, "op": "open", "i": j}, dict(readall(j), h=1),
+                             {"h": 0, "op": "open", "i": j}, dict(readall(j), h=0), {"h": 2, "op": "clone_from", "g": 1}, {"h": 2, "op": "open", "i": (j + 1) % len(datas)},
+                             dict(readall((j + 1) % len(datas)), h=2)]
+                    scs.append({"sc": "midclone-%d-%d-%d-%d" % (cp, i, j, part), "hex": b.hex(), "handles": 3, "clone_pos": cp, "steps": steps})
+                    nc += 1
+    rep.notes["mid_life_clone_scenarios"] = nc
     # random longer interleavings
     for i in range(60 if tier == "quick" else 1500):
         nh = rnd.randint(2, 6)
